@@ -22,13 +22,19 @@ for logf in sys.argv[1:]:  # several logs: a later one overrides an earlier one 
         if m:
             try: thor.setdefault(m.group(1), {})["cov"] = json.loads(m.group(2))
             except ValueError: pass
+        elif re.match(r"C\d\d thorough: \{", line):  # line cut short by the runner: take the leading counters
+            pid = line[:3]
+            c = {k: int(v) for k, v in re.findall(r'"(states|transitions|schedules|scenarios)": (\d+)', line)}
+            if c:
+                c["exhaustive"] = None
+                thor.setdefault(pid, {})["cov"] = c
 rows = ["| Check | quick tier: covered | quick wall | thorough tier: covered | thorough wall | bounds completed |", "|---|---|---|---|---|---|"]
 for f in sorted(glob.glob(V + "/evidence/C*.json")):
     d = json.load(open(f)); pid = d["property_id"]; c = d.get("coverage", {})
     t = thor.get(pid, {})
     tc = t.get("cov")
     rows.append("| %s | %s | %.0f s | %s | %s | %s |" % (pid, summ(c), d.get("wall_s", 0), summ(tc) if tc else "-", ("%d s" % t["wall"]) if "wall" in t else "-",
-                                                 ("yes" if tc.get("exhaustive", True) else "NO (deadline)") if tc else "-"))
+                                                 ("per phase, caps in the evidence" if tc.get("exhaustive", True) is None else "yes" if tc.get("exhaustive", True) else "NO (deadline)") if tc else "-"))
 s = open(V + "/DESIGN.md").read()
 a, b = "<!-- COST-TABLE-BEGIN -->", "<!-- COST-TABLE-END -->"
 if a in s:
